@@ -335,6 +335,22 @@ pub fn op_parse(s: &str) -> String {
     }
 
     o.law("law_grammar", &law_grammar);
+    // the decision and the error must not depend on where the input lives (alignment of the `&str`, neighbours in a
+    // larger buffer): same outcome for the text placed at every offset from an 8-byte boundary
+    let mut law_align = Law::new();
+    {
+        let show = |r: Result<&Pointer, ParseError>| match r {
+            Ok(p) => format!("ok({})", p.as_str()),
+            Err(e) => fmt_parse_err(&e),
+        };
+        if let Some(base) = guard(|| show(Pointer::parse(s))) {
+            with_alignments(s, |k, v| {
+                let got = guard(|| show(Pointer::parse(v)));
+                law_align.ck(got.as_deref() == Some(base.as_str()), &format!("parse_differs_at_offset_{k}"));
+            });
+        }
+    }
+    o.law("law_align", &law_align);
     o.law("law_doors", &law_doors);
     o.law("law_same_ptr", &law_same_ptr);
     o.law("law_report", &law_report);
@@ -388,7 +404,12 @@ pub fn op_tok_new(s: &str) -> String {
             for ch in s.chars() {
                 sp.push(ch);
             }
-            let h: Token = Token::from(sp.clone());
+            // (a clone would shrink the capacity to the length: each door gets its own piecewise-built string)
+            let mut sp2 = String::with_capacity(s.len() + extra);
+            for ch in s.chars() {
+                sp2.push(ch);
+            }
+            let h: Token = Token::from(sp2);
             let i: Token = Token::new(sp);
             for (n, x) in [("from_string_spare", &h), ("new_string_spare", &i)] {
                 law_from.ck(*x == t, &format!("{n}_unequal"));
@@ -396,10 +417,21 @@ pub fn op_tok_new(s: &str) -> String {
             }
         }
     }
+    let mut law_align = Law::new();
+    with_alignments(s, |k, v| {
+        let tv = Token::new(v);
+        law_align.ck(tv.encoded() == enc && tv.decoded() == dec, &format!("new_differs_at_offset_{k}"));
+    });
+    with_alignments(&enc, |k, v| {
+        if let Ok(tv) = Token::from_encoded(v) {
+            law_align.ck(tv.decoded() == dec, &format!("decoded_differs_at_offset_{k}"));
+        }
+    });
     o.law("law_enc", &law_enc);
     o.law("law_dec", &law_dec);
     o.law("law_valid", &law_valid);
     o.law("law_from", &law_from);
+    o.law("law_align", &law_align);
     o.finish()
 }
 
@@ -448,6 +480,19 @@ pub fn op_from_encoded(s: &str) -> String {
             }
         }
     }
+    let mut law_align = Law::new();
+    {
+        let show = |r: &Result<Token, jsonptr::EncodingError>| match r {
+            Ok(t) => format!("ok({})", t.encoded()),
+            Err(e) => format!("err({:?},{})", e.source, e.offset),
+        };
+        let base = show(&r);
+        with_alignments(s, |k, v| {
+            let rv = Token::from_encoded(v);
+            law_align.ck(show(&rv) == base, &format!("result_differs_at_offset_{k}"));
+        });
+    }
+    o.law("law_align", &law_align);
     o.law("law_exact", &law_exact);
     o.law("law_verbatim", &law_verbatim);
     o.law("law_inverse", &law_inverse);
@@ -660,7 +705,15 @@ pub fn op_conv(p: &Pointer) -> String {
     {
         // `ToOwned::clone_into` / `Cow::clone_from` into targets that already hold other text (longer, shorter, empty)
         let longer = format!("{}/zzzz/yyyy", text);
-        for (name, init) in [("clone_into_longer", longer.as_str()), ("clone_into_shorter", ""), ("clone_into_slash", "/"), ("clone_into_same", text)] {
+        let sibling = same_lead_sibling(text).unwrap_or_else(|| text.to_string());
+        let sibling_longer = format!("{}/zzzz", sibling);
+        let mut half = text.len() / 2;
+        while !text.is_char_boundary(half) {
+            half -= 1;
+        }
+        let prefix_then_other = format!("{}{}", &text[..half], "/q");
+        for (name, init) in [("clone_into_longer", longer.as_str()), ("clone_into_shorter", ""), ("clone_into_slash", "/"), ("clone_into_same", text),
+            ("clone_into_sibling", sibling.as_str()), ("clone_into_sibling_longer", sibling_longer.as_str()), ("clone_into_shared_prefix", prefix_then_other.as_str())] {
             if let Ok(mut target) = PointerBuf::parse(init.to_string()) {
                 p.clone_into(&mut target);
                 ck(name, target.as_str() == text);
@@ -751,6 +804,23 @@ pub fn op_deser(s: &str) -> String {
     let valid = valid_pointer(s);
     law.ck(own.is_ok() == valid, if valid { "owned_rejected_valid" } else { "owned_accepted_invalid" });
     law.ck(bor.is_ok() == valid, if valid { "borrowed_rejected_valid" } else { "borrowed_accepted_invalid" });
+    // serde's in-place door (`Deserialize::deserialize_in_place`, used by serde for containers and by callers that
+    // reuse buffers): whatever it returns, the buffer it was given must hold valid pointer text afterwards (C01),
+    // and on success exactly the input (C18); an invalid string is refused.
+    for init in ["", "/a", "/a~0b/c/d/e/f/g/h/i/j/k/l/m/n/o/p"] {
+        let mut place = PointerBuf::parse(init.to_string()).expect("valid");
+        let de = serde::de::value::StrDeserializer::<DeError>::new(s);
+        let r = <PointerBuf as serde::Deserialize>::deserialize_in_place(de, &mut place);
+        law.ck(r.is_ok() == valid, if valid { "in_place_rejected_valid" } else { "in_place_accepted_invalid" });
+        law.ck(valid_pointer(place.as_str()), "in_place_left_invalid_text_behind");
+        if r.is_ok() {
+            law.ck(place.as_str() == s, "in_place_text_differs");
+        }
+        let de2 = serde::de::value::StringDeserializer::<DeError>::new(s.to_string());
+        let mut place2 = PointerBuf::parse(init.to_string()).expect("valid");
+        let r2 = <PointerBuf as serde::Deserialize>::deserialize_in_place(de2, &mut place2);
+        law.ck(r2.is_ok() == valid && valid_pointer(place2.as_str()) && (r2.is_err() || place2.as_str() == s), "in_place_owned_string");
+    }
     o.law("law_refuse", &law);
     o.finish()
 }
